@@ -24,7 +24,7 @@ for extra in ("demo.md", "notes.md"):
     if os.path.exists(p):
         shutil.copy(p, os.path.join(d, extra))
 confirm = ""
-for log in ("/tmp/confirm_batch1.log", "/tmp/confirm_batch2.log", "/tmp/confirm_batch3.log", "/tmp/confirm_batch5.log", "/tmp/confirm_batch6.log", "/tmp/confirm_batch7.log", "/tmp/confirm_batch8.log", "/tmp/confirm_batch9.log", "/tmp/confirm_batch10.log", "/tmp/confirm_batch11.log", "/tmp/confirm_batch12.log", "/tmp/confirm_batch13.log", "/tmp/confirm_batch14.log", "/tmp/confirm_batch15.log", "/tmp/confirm_batch16.log", "/tmp/confirm_batch17.log"):
+for log in ("/tmp/confirm_batch1.log", "/tmp/confirm_batch2.log", "/tmp/confirm_batch3.log", "/tmp/confirm_batch5.log", "/tmp/confirm_batch6.log", "/tmp/confirm_batch7.log", "/tmp/confirm_batch8.log", "/tmp/confirm_batch9.log", "/tmp/confirm_batch10.log", "/tmp/confirm_batch11.log", "/tmp/confirm_batch12.log", "/tmp/confirm_batch13.log", "/tmp/confirm_batch14.log", "/tmp/confirm_batch15.log", "/tmp/confirm_batch16.log", "/tmp/confirm_batch17.log", "/tmp/confirm_batch18.log"):
     if os.path.exists(log):
         for l in open(log):
             if l.startswith(f"CONFIRM {wt} "):
